@@ -7,6 +7,7 @@ FIXED = [
  ("C10", "direct SearchStream enters Done", "direct SearchStream stayed Active after the final Ok(None); state() reported Active and a further next() panicked (search.rs unwrap on None): signatures C10.state|state/Direct/after-end and C10.panic|panic/client/src/search.rs/called `Option::unwrap()` on a `None` value"),
  ("C02", "search options set on a handle are discarded", "search options given with with_search_options() before a non-Search operation stayed on the handle and were applied to a later Search: signature C02.op|search/search-options-differ"),
  ("C02", "refused for an empty value set consumes", "an Add or Modify refused with AddNoValues left the controls / timeout / search options of that call on the handle; the next operation was sent with them: signatures C02.modifiers|<op>/controls-from-an-earlier-call"),
+ ("C12", "whose caller has already given up is not sent", "an operation that timed out while its request was still queued behind a driver blocked in a write to a slow peer left a routing entry for good when the server did not answer it (the scrub was handled before the request was sent): signatures C12.e|resultmap/single/timed-out, C12.e|searchmap/<stream>/errored; found when the TIME family learnt to stall the peer"),
  ("C16", "PagedResults forgets the result of a finished page", "a paged search finished before its end returned the stored result of the first page (with its paging control and cookie) from finish() instead of the synthetic code 88: signature C16.d|final-result-carries-paging-control"),
  ("C11", "overrunning its complete parent", "a frame whose inner element overran its (complete) parent was never rejected: the decoder answered 'need more' for ever and every later reply was stuck behind it: signatures C11.c|wedged-until-the-server-closed/<class>"),
  ("C11", "bound the nesting depth", "about 15 000 nested SEQUENCE headers (70 KB) overflowed the 2 MiB stack of the task driving the connection and aborted the process: signature C11.process|process-killed-by-signal-6"),
